@@ -195,3 +195,46 @@ def parse_dot(path: str) -> Graph:
                 if "style = filled" in line[end:end + 30]:
                     init.append(nid)
     return Graph(nodes, init, out, n_edges)
+
+
+_SIM_ACTION = re.compile(r"^\\\* <(.*) line \d+, col \d+ to line \d+, col \d+ of module \w+>\s*$")
+
+
+def parse_sim_traces(prefix_dir: str, prefix: str = "tr") -> Graph:
+    """Behaviours written by `tlc -simulate file=<dir>/<prefix>,num=N`: one chain of states per file, with the action
+    (and its parameters) that led to each state.  Returned as a forest: every behaviour starts at its own initial node."""
+    nodes: Dict[int, dict] = {}
+    init: List[int] = []
+    out: Dict[int, List[Tuple[Label, int]]] = {}
+    n_edges = 0
+    nid = 0
+    for fn in sorted(os.listdir(prefix_dir)):
+        if not fn.startswith(prefix + "_"):
+            continue
+        with open(os.path.join(prefix_dir, fn), encoding="utf-8") as f:
+            text = f.read()
+        chunks = re.split(r"^STATE_\d+ ==\s*$", text, flags=re.M)
+        # chunks[0] = header + first action comment; chunk i (i >= 1) = state text followed by the next action comment
+        labels = []
+        for ch in chunks:
+            lab = None
+            for line in ch.splitlines():
+                m = _SIM_ACTION.match(line)
+                if m:
+                    lab = m.group(1)
+            labels.append(lab)
+        prev = None
+        for i in range(1, len(chunks)):
+            body = "\n".join(l for l in chunks[i].splitlines() if not l.startswith("\\*") and not l.startswith("====")).strip()
+            if not body:
+                continue
+            nid += 1
+            nodes[nid] = parse_state(body)
+            if prev is None:
+                init.append(nid)
+            else:
+                lab = labels[i - 1]
+                out.setdefault(prev, []).append((parse_label(lab), nid))
+                n_edges += 1
+            prev = nid
+    return Graph(nodes, init, out, n_edges)
